@@ -448,6 +448,8 @@ class Item:
             # one attribute or several, both spellings are accepted by the macro
             s += f'{indent}#[scale_info(' + ', '.join(attrs) + ')]\n'
         if self.is_enum:
+            if getattr(self, 'repr', None):
+                s += f'{indent}#[repr({self.repr})]\n'
             s += f'{indent}pub enum {self.ident}{self.generics_decl()} {{\n'
             for v in self.variants:
                 s += render_docs(v.docs, indent + '    ')
@@ -671,6 +673,17 @@ def main():
     it.is_enum, it.doc_noise, it.capture, it.capture_text, it.explicit_capture = True, True, 'a', 'always', True
     it.docs = [' e1', ' e2']
     it.variants = [Variant('A', 'u', [], docs=[' va', ' vb', ' vc']), Variant('B', 'x', [Field(None, u8, docs=[' x1', ' x2'])], docs=[' vd'])]
+    # a deeply nested member followed by a member whose type is first met afterwards
+    it = cat_item()
+    deep = T('u', n=16)
+    for _ in range(30):
+        deep = T('opt', deep)
+    it.fields = [Field('deep', deep), Field('after', T('i', n=64)), Field('last', T('vec', T('bool')))]
+    # explicit discriminants on data-carrying variants (needs an integer repr): the codec writes the discriminant
+    it = cat_item()
+    it.is_enum, it.repr = True, 'u8'
+    it.variants = [Variant('Unit', 'u', [], disc=9), Variant('Data', 'x', [Field(None, u8)], disc=5), Variant('Rec', 'n', [Field('a', u16)], disc=2),
+                   Variant('Zero', 'x', [Field(None, bl)], disc=0)]
     # `#[codec(index = ..)]` in every spelling of an integer literal
     it = cat_item()
     it.is_enum = True
